@@ -330,7 +330,11 @@ def parse_obs(o):
     for r in split_top(parts.get("R", ""), ","):
         d = parse_snap(r)
         R[d["key"]] = d
-    return dict(C=C, P=P, R=R, L=parts.get("L"), E=parts.get("E"))
+    EV = []
+    for e in split_top(parts.get("EV", ""), ","):
+        f = e.split("~")
+        EV.append(dict(key=f[0], typ=f[1], reason=f[2], codes=[c for c in f[3].split("+") if c]))
+    return dict(C=C, P=P, R=R, L=parts.get("L"), E=parts.get("E"), EV=EV)
 
 
 def parse_spec(o):
